@@ -314,8 +314,56 @@ func mutate(r *rng.R, d *desc) string {
 		return rng.Pick(r, c)
 	}
 	feat := rng.Pick(r, alphabet)
+	// a type of input kind that needs `feat`, made so if necessary
+	gatedInput := func() *typeDesc {
+		t := pickT("enum", "input")
+		if t != nil && !subset([]string{feat}, t.Req) {
+			t.Req = union(t.Req, []string{feat})
+		}
+		return t
+	}
+	implementers := func(iface string) []*typeDesc {
+		var out []*typeDesc
+		for i := range d.Types {
+			if d.Types[i].Kind == "object" && subset([]string{iface}, d.Types[i].Ifaces) {
+				out = append(out, &d.Types[i])
+			}
+		}
+		return out
+	}
 	for tries := 0; tries < 20; tries++ {
-		switch r.Intn(12) {
+		switch r.Intn(15) {
+		case 12: // an argument of a gated type on an interface field (and on the implementing fields)
+			if it, gt := pickT("interface"), gatedInput(); it != nil && gt != nil {
+				f := &it.Fields[r.Intn(len(it.Fields))]
+				a := argDesc{Name: fmt.Sprintf("ax%d", len(f.Args)), Type: tref{gt.Name, ""}}
+				f.Args = append(f.Args, a)
+				for _, o := range implementers(it.Name) {
+					if of := o.field(f.Name); of != nil {
+						of.Args = append(of.Args, a)
+					}
+				}
+				return "iface-arg-gated"
+			}
+		case 13: // an argument of a gated type on an object field that implements nothing
+			if ot, gt := pickT("object"), gatedInput(); ot != nil && gt != nil && len(ot.Ifaces) == 0 {
+				f := &ot.Fields[r.Intn(len(ot.Fields))]
+				f.Args = append(f.Args, argDesc{Name: fmt.Sprintf("ax%d", len(f.Args)), Type: tref{gt.Name, ""}})
+				return "object-arg-gated"
+			}
+		case 14: // an interface field of a gated leaf type (and the implementing fields)
+			if it, gt := pickT("interface"), gatedInput(); it != nil && gt != nil && gt.Kind == "enum" {
+				f := &it.Fields[r.Intn(len(it.Fields))]
+				if f.Name != "id" {
+					f.Type = tref{gt.Name, ""}
+					for _, o := range implementers(it.Name) {
+						if of := o.field(f.Name); of != nil {
+							of.Type = f.Type
+						}
+					}
+					return "iface-field-type-gated"
+				}
+			}
 		case 0: // loosen a field
 			if t := pickT("object", "interface"); t != nil {
 				f := &t.Fields[r.Intn(len(t.Fields))]
